@@ -167,15 +167,132 @@ theorem runComps_none_of_mem (buf : Buf) (rel : Path) (c : Comp) (hc : c ∈ rel
 
 /-! ### `id_of_path` unfolded on `root ++ rel ++ [last]` -/
 
-theorem idOfPath_under (r rel : Path) (n : OsName) (d : Bool) :
-    idOfPath r (r ++ rel ++ [.normal n]) d =
+/-- The shape of `id_of_path` regenerated from the source is the repaired one: the root itself is
+the directory with the empty id, the kind comes from the notification when it gives one, the
+whole name of a directory and the stem of a file are the last id segment, `name.` is refused. -/
+theorem idShape_eq : idShape = ⟨true, true, .whole, .stem, true⟩ := by decide
+
+theorem kindOf_eq (hint : Option Bool) (d : Bool) : kindOf hint d = hint.getD d := by
+  simp [kindOf, idShape_eq]
+
+/-- The extension of a file name, the empty-but-present one (`name.`) refused. -/
+def extOfName (n : OsName) : Option (List Char) :=
+  match (splitName n).2 with
+  | none => some []
+  | some e => if e = [] then none else toStr? e
+
+theorem fileExt_eq (n : OsName) : fileExt n = extOfName n := by
+  unfold fileExt extOfName
+  rw [idShape_eq]
+  rfl
+
+theorem idOfPath_root (r : Path) (hint : Option Bool) (d : Bool) : idOfPath r r hint d = some (.dir []) := by
+  simp [idOfPath, idShape_eq]
+
+theorem idOfPath_of_ne (r p : Path) (hint : Option Bool) (d : Bool) (h : p ≠ r) :
+    idOfPath r p hint d =
+      (parentOf p).bind fun par =>
+      (stripPrefix r par).bind fun rel =>
       (runComps [] rel).bind fun buf =>
-      (toStr? (splitName n).1).bind fun stem =>
-      (push buf stem).bind fun id =>
-      if d then some (.dir id) else (extensionOf n).map fun ext => .file id ext := by
+      (fileName p).bind fun name =>
+      if hint.getD d then
+        (toStr? name).bind fun s => (push buf s).map fun id => .dir id
+      else
+        (toStr? (splitName name).1).bind fun s =>
+        (push buf s).bind fun id => (extOfName name).map fun ext => .file id ext := by
   unfold idOfPath
-  rw [parentOf_concat_normal, fileName_concat_normal]
-  simp [stripPrefix_append]
+  simp only [h, and_false, if_false, kindOf_eq, fileExt_eq, idShape_eq, namePart]
+
+theorem under_ne (r rel : Path) (c : Comp) : r ++ rel ++ [c] ≠ r := by
+  intro e
+  have := congrArg List.length e
+  simp at this
+
+theorem idOfPath_under (r rel : Path) (n : OsName) (hint : Option Bool) (d : Bool) :
+    idOfPath r (r ++ rel ++ [.normal n]) hint d =
+      (runComps [] rel).bind fun buf =>
+      if hint.getD d then
+        (toStr? n).bind fun s => (push buf s).map fun id => .dir id
+      else
+        (toStr? (splitName n).1).bind fun s =>
+        (push buf s).bind fun id => (extOfName n).map fun ext => .file id ext := by
+  rw [idOfPath_of_ne _ _ _ _ (under_ne r rel _), parentOf_concat_normal, fileName_concat_normal]
+  simp only [Option.bind_some, stripPrefix_append]
+
+/-! ### more on splitLast / OS strings -/
+
+theorem splitLast_eq_some {α} [DecidableEq α] (d : α) (l b a : List α) (h : splitLast d l = some (b, a)) :
+    l = b ++ d :: a ∧ d ∉ a := by
+  induction l generalizing b with
+  | nil => simp [splitLast] at h
+  | cons c cs ih =>
+    simp only [splitLast] at h
+    cases hs : splitLast d cs with
+    | some ba =>
+      obtain ⟨b', a'⟩ := ba
+      rw [hs] at h
+      simp only [Option.some.injEq, Prod.mk.injEq] at h
+      obtain ⟨h1, h2⟩ := h
+      subst h1; subst h2
+      obtain ⟨e, hn⟩ := ih b' hs
+      exact ⟨by rw [e]; rfl, hn⟩
+    | none =>
+      rw [hs] at h
+      by_cases hc : c = d
+      · simp only [hc, if_true, Option.some.injEq, Prod.mk.injEq] at h
+        obtain ⟨h1, h2⟩ := h
+        subst h1; subst h2; subst hc
+        refine ⟨rfl, ?_⟩
+        intro hm
+        have : splitLast c cs ≠ none := by
+          clear hs ih
+          induction cs with
+          | nil => cases hm
+          | cons x xs ihx =>
+            simp only [splitLast]
+            cases hx : splitLast c xs with
+            | some _ => simp
+            | none =>
+              rcases List.mem_cons.mp hm with e | e
+              · simp [e]
+              · exact absurd hx (ihx e)
+        exact this hs
+      · simp [hc] at h
+
+theorem toStr?_eq_some (n : OsName) (s : List Char) (h : toStr? n = some s) : n = ofStr s := by
+  induction n generalizing s with
+  | nil => simp [toStr?] at h; subst h; rfl
+  | cons c cs ih =>
+    cases c with
+    | bad b => simp [toStr?] at h
+    | ch c =>
+      simp only [toStr?] at h
+      cases hc : toStr? cs with
+      | none => simp [hc] at h
+      | some t =>
+        rw [hc] at h
+        simp at h
+        subst h
+        rw [ih t hc]; rfl
+
+theorem toStr?_append (a b : OsName) : toStr? (a ++ b) = (toStr? a).bind fun x => (toStr? b).map fun y => x ++ y := by
+  induction a with
+  | nil => simp [toStr?]
+  | cons c cs ih =>
+    cases c with
+    | bad _ => simp [toStr?]
+    | ch c =>
+      simp only [List.cons_append, toStr?, ih]
+      cases toStr? cs <;> cases toStr? b <;> simp
+
+/-- If pushing the segments succeeded, none of them has a dot. -/
+theorem dotfree_of_runComps (buf b' : Buf) (segs : List (List Char)) (h : runComps buf (segs.map N) = some b') :
+    ∀ s ∈ segs, '.' ∉ s := by
+  intro s hs hdot
+  have : runComps buf (segs.map N) = none := by
+    apply runComps_none_of_mem buf _ (N s) (List.mem_map_of_mem hs)
+    intro b; rw [compStep_N]; simp [push, hdot]
+  rw [this] at h; cases h
 
 /-! ### ids ↔ segments (from design-calibration/Ids.lean) -/
 
